@@ -73,6 +73,9 @@ def run_attrs(pid, tier):
         eq("placeholder slot visibility", fld(it["VVftable"], "_vfunc_1")["vis"], "priv")
         ev = next((e for e in fproj["evals"] if e["name"] == "gv"), None)
         eq("accessor get_gv visibility", ev and ev["vis"], m["evals"][0]["vis"])
+        eq("T::get() visibility", it["T"].get("singleton_vis"), T["vis"])
+        if E["singleton"] != NONE:
+            eq("E::get() visibility", it["E"].get("singleton_vis"), E["vis"])
         eq("T derives", it["T"].get("derives"), want_derives(T))
         eq("E derives", it["E"].get("derives"), conform.BASE_ENUM_DERIVES + want_derives(E))
         eq("T packed", bool(it["T"].get("repr", {}).get("packed")), T["packed"])
